@@ -23,7 +23,7 @@ func (m *Mutex) Lock() {
 		shim.WaitOn(m)
 	}
 }
-func (m *Mutex) Unlock()       { m.m.Unlock(); shim.Released(m) }
+func (m *Mutex) Unlock()       { shim.Point("unlock"); m.m.Unlock(); shim.Released(m) }
 func (m *Mutex) TryLock() bool { shim.Point("trylock"); return m.m.TryLock() }
 
 type RWMutex struct{ m rsync.RWMutex }
@@ -38,7 +38,7 @@ func (m *RWMutex) Lock() {
 		shim.WaitOn(m)
 	}
 }
-func (m *RWMutex) Unlock() { m.m.Unlock(); shim.Released(m) }
+func (m *RWMutex) Unlock() { shim.Point("wunlock"); m.m.Unlock(); shim.Released(m) }
 func (m *RWMutex) RLock() {
 	if shim.S == nil {
 		m.m.RLock()
@@ -49,7 +49,7 @@ func (m *RWMutex) RLock() {
 		shim.WaitOn(m)
 	}
 }
-func (m *RWMutex) RUnlock() { m.m.RUnlock(); shim.Released(m) }
+func (m *RWMutex) RUnlock() { shim.Point("runlock"); m.m.RUnlock(); shim.Released(m) }
 
 type WaitGroup struct{ w rsync.WaitGroup }
 
